@@ -83,6 +83,8 @@ pub struct Instance {
     pub seen: Rc<RefCell<Seen>>,
     pub log: Rc<RefCell<Received>>,
     pub poisoned: bool,
+    /// configuration currently in force (follows successful set_config calls)
+    pub cfg: crate::proto::Cfg,
 }
 
 impl Instance {
@@ -100,7 +102,7 @@ impl Instance {
             AnyCodec(setup.codec),
             handler,
         );
-        Instance { setup: setup.clone(), foca, rng, seen, log, poisoned: false }
+        Instance { setup: setup.clone(), foca, rng, seen, log, poisoned: false, cfg: setup.cfg.clone() }
     }
 
     pub fn identity(&self) -> VId {
@@ -151,7 +153,65 @@ impl Instance {
                 Res::Panic(msg)
             }
         };
+        if let (Op::SetCfg(c), Res::Ok) = (op, &res) {
+            self.cfg = c.clone();
+        }
         Outcome { res, effs: rt.effs, rng_before }
+    }
+
+    /// Same call through `AccumulatingRuntime`, drained afterwards (sends, timers, notifications).
+    pub fn apply_acc(&mut self, op: &Op) -> (Res, Vec<Eff>, Vec<Eff>, Vec<Eff>) {
+        let mut rt = foca::AccumulatingRuntime::new();
+        let foca = &mut self.foca;
+        let r = catch_unwind(AssertUnwindSafe(|| -> Res {
+            let wrap = |r: Result<(), foca::Error>| match r {
+                Ok(()) => Res::Ok,
+                Err(e) => Res::Err(err_kind(&e).to_string()),
+            };
+            match op {
+                Op::Apply(b, ms) => wrap(foca.apply_many(ms.iter().cloned(), *b, &mut rt)),
+                Op::Data(d) => wrap(foca.handle_data(d, &mut rt)),
+                Op::Timer(t) => wrap(foca.handle_timer(t.clone(), &mut rt)),
+                Op::Announce(d) => wrap(foca.announce(*d, &mut rt)),
+                Op::Gossip => wrap(foca.gossip(&mut rt)),
+                Op::Broadcast => wrap(foca.broadcast(&mut rt)),
+                Op::Leave => wrap(foca.leave_cluster(&mut rt)),
+                Op::Reuse => wrap(foca.reuse_down_identity()),
+                Op::AddB(d) => match foca.add_broadcast(d) {
+                    Ok(b) => Res::Bool(b),
+                    Err(e) => Res::Err(err_kind(&e).to_string()),
+                },
+                Op::ChId(i, p) => {
+                    let mut id = *i;
+                    id.policy = *p;
+                    wrap(foca.change_identity(id, &mut rt))
+                }
+                Op::SetCfg(c) => wrap(foca.set_config(c.to_foca())),
+            }
+        }));
+        let res = match r {
+            Ok(r) => r,
+            Err(_) => {
+                self.poisoned = true;
+                Res::Panic("panic".into())
+            }
+        };
+        if let (Op::SetCfg(c), Res::Ok) = (op, &res) {
+            self.cfg = c.clone();
+        }
+        let mut sends = Vec::new();
+        while let Some((to, data)) = rt.to_send() {
+            sends.push(Eff::Send(to, data.to_vec()));
+        }
+        let mut timers = Vec::new();
+        while let Some((after, t)) = rt.to_schedule() {
+            timers.push(Eff::Timer(after, t));
+        }
+        let mut notes = Vec::new();
+        while let Some(n) = rt.to_notify() {
+            notes.push(Eff::Notify(n));
+        }
+        (res, sends, timers, notes)
     }
 
     pub fn members(&self) -> Vec<Member<VId>> {
